@@ -195,6 +195,36 @@ def f5(model: Model, rep: Report):
               required="only the rebuild changes the block", what="flattening also runs another structural mutation of the block: " + "; ".join(bad), detail="other-mutator")
 
 
+def _changes_state(K, name: str, depth: int = 0, seen=None) -> bool:
+    """the method (or one it calls on self, three levels deep) writes an attribute of self or changes one of its containers in place"""
+    seen = seen if seen is not None else set()
+    if name in seen or depth > 3:
+        return False
+    seen.add(name)
+    for f in K.resolve_all(name) if hasattr(K, "resolve_all") else [K.resolve(name)]:
+        if f is None:
+            continue
+        sn = f.self_name
+        for n in ast.walk(f.node):
+            if isinstance(n, (ast.Assign, ast.AnnAssign, ast.AugAssign)):
+                for t in (n.targets if isinstance(n, ast.Assign) else [n.target]):
+                    if isinstance(t, (ast.Attribute, ast.Subscript)) and any(isinstance(y, ast.Name) and y.id == sn for y in ast.walk(t)):
+                        return True
+            if isinstance(n, ast.Call) and ast.unparse(n.func).endswith("__setattr__"):
+                return True
+            if isinstance(n, ast.Call) and isinstance(n.func, ast.Attribute):
+                if n.func.attr in ("append", "extend", "insert", "remove", "pop", "clear", "update", "add", "sort", "reverse") and any(isinstance(y, ast.Name) and y.id == sn for y in ast.walk(n.func.value)):
+                    return True
+                if isinstance(n.func.value, ast.Name) and n.func.value.id == sn and _changes_state(K, n.func.attr, depth + 1, seen):
+                    return True
+    return False
+
+
+def find_calls_on(t: Term, recv: Term):
+    """call terms ``recv.m(..)`` inside ``t``"""
+    return subterms(t, lambda y: y[0] == "call" and isinstance(y[1], tuple) and y[1][0] == "attr" and y[1][1] == recv)
+
+
 def f2(model: Model, rep: Report):
     rep.rule("C11.F2", "DeclarativeCircuit.flatten: result._structure = self._structure.apply_flatten_to_self() and the result's acquisition registry is built on that structure")
     D = model.cls("DeclarativeCircuit")
@@ -211,6 +241,23 @@ def f2(model: Model, rep: Report):
         ok = ok and d.get("_structure") == want and reg is not None and reg[0] == "new" and dict(reg[2]).get("circuit") == want
         rep.check(ok, "C11.F2", "DeclarativeCircuit.flatten", f.loc, found=show(v) if v else None, required="structure = self._structure.apply_flatten_to_self(); registry on that structure",
                   what="the flattened circuit does not carry the flattened structure (or indexes a discarded one)", detail="delegate")
+        # flattening removes the nesting ONLY: when called as documented (every optional argument omitted) nothing else is done to the structure
+        a_ = f.node.args
+        dflt = dict(zip([x.arg for x in (a_.posonlyargs + a_.args)][::-1], list(a_.defaults)[::-1]))
+        dflt.update({x.arg: d_ for x, d_ in zip(a_.kwonlyargs, a_.kw_defaults) if d_ is not None})
+        mp = {sym(k_): ("const", d_.value) for k_, d_ in dflt.items() if isinstance(d_, ast.Constant)}
+        from ..sym import subst as _subst, TRUE as _T, FALSE as _F
+        mp = {k_: (_T if v_[1] is True else _F if v_[1] is False else v_) for k_, v_ in mp.items()}
+        c_default = _subst(p.cond, mp)
+        if c_default == _F:
+            continue
+        K_ = model.cls("CircuitCompositeOperation")
+        others = [e.term for e in p.events if e.kind in ("effect", "assign") and e.term is not None
+                  for c_ in find_calls_on(e.term, ("attr", s, "_structure")) if c_[1][2] != "apply_flatten_to_self" and _changes_state(K_, c_[1][2])]
+        rep.check(not others, "C11.F2", "DeclarativeCircuit.flatten[only flattens]", f.loc,
+                  found="; ".join(show(t)[:80] for t in others) or "the structure is only flattened", required="no other change of the structure when flatten() is called without arguments",
+                  what="flatten() called as documented also changes the structure in another way (" + "; ".join(show(t)[:60] for t in others) + "): the multiset of operations is not "
+                       "the one of the nested circuit (repeated blocks are unrolled)", detail="only-flatten")
 
 
 def f3(model: Model, rep: Report, rule: str):
